@@ -262,6 +262,9 @@ func runHotRestartCase(c *checkCtx, cs hrCase, can *canary) (res hrResult) {
 		if smEpoch != epoch {
 			violate("session manager epoch is %d after the restart to epoch %d (a foreign epoch was adopted)", smEpoch, epoch)
 		}
+		// the server registers a session after ITS side of the handshake; a v2 client returns before that, so give it time
+		waitUntil(5*time.Second, func() bool { return len(nw.sessionList()) >= cs.Sessions })
+		time.Sleep(2 * time.Millisecond)
 		if n := len(nw.sessionList()); allNew && n != cs.Sessions {
 			violate("new listener holds %d sessions after the hand-over of %d pools", n, cs.Sessions)
 		}
